@@ -22,7 +22,9 @@ RULE = ("Case = mode in {cancel, wait, start} (long and one-letter spelling) x g
         "and arrivals during a run or during the guard time x run durations {1,2,3} s x failing runs x "
         "stop instant x stop_timeout generous (100 s) or tight. Checked on the log of puts, coroutine "
         "start/end/cancel instants, on_success/on_error/on_cancel events (with the 'put' item) and "
-        "on_output changes. Non-trivial = >=2 puts of which one arrives while a run is active or during "
+        "on_output changes. One case in sixty is a burst of 2-70 puts in 'start' mode whose output function is a "
+        "blocking function wrapped in InExecutor (real loop, real threads, all runs meet at one barrier). "
+        "Non-trivial = >=2 puts of which one arrives while a run is active or during "
         "guard time; distinct by descriptor.")
 ASSUMPTIONS = [
     "with a tight stop_timeout only the weak invariants are asserted (at most one result per put, "
@@ -69,8 +71,95 @@ def cases(draw, max_puts=8):
             'slow_other': draw(st.integers(0, 2)) == 0}
 
 
+# A blocking output function run through edzed.InExecutor (the documented way to use one), on a real
+# event loop with real threads.  The oracle is logical, not a stop-watch: every run of a burst waits on
+# one threading.Barrier for all the others, so the burst completes if and only if all runs were active
+# at the same time ('start' mode: every event starts its own run at once).  The barrier's time-out only
+# bounds how long a *failing* run takes.
+executor_cases = st.builds(
+    lambda n, kw, ex: {'k': 'executor', 'n': n, 'kwargs': kw, 'executor': ex},
+    st.sampled_from([2, 7, 24, 40, 40, 70]), st.booleans(), st.sampled_from(['default', 'thread']))
+
+
 def strategy(tier):
-    return cases()
+    return st.integers(0, 59).flatmap(lambda i: executor_cases if i == 0 else cases())
+
+
+def exec_executor(case):
+    import asyncio
+    import concurrent.futures
+    import threading
+    res = Result()
+    n = case['n']
+    barrier = threading.Barrier(n)
+    results = []
+    outputs = []
+    info = {}
+
+    def blocking(*args, **kwargs):
+        value = kwargs['value'] if case['kwargs'] else args[0]
+        try:
+            barrier.wait(timeout=15.0)
+        except threading.BrokenBarrierError:
+            return ('alone', value)
+        return ('together', value)
+
+    async def main():
+        harness.reset()
+        circuit = edzed.get_circuit()
+        coll = harness.Recorder('coll', x_log=results)
+        extra = {} if case['executor'] == 'default' else {'executor': concurrent.futures.ThreadPoolExecutor}
+        kw = {'f_kwargs': ('value',)} if case['kwargs'] else {'f_args': ('value',)}
+        out = edzed.OutputAsync('out', mode='start', coro=edzed.InExecutor(blocking, **extra),
+                                on_success=edzed.Event(coll, 'ok'), on_error=edzed.Event(coll, 'err'),
+                                on_cancel=edzed.Event(coll, 'cancel'), stop_timeout=60.0,
+                                on_output=edzed.Event(harness.Recorder('outs', x_log=outputs), 'out'), **kw)
+        task = asyncio.create_task(circuit.run_forever())
+        try:
+            await circuit.wait_init()
+            for i in range(n):
+                out.event('put', value=i)
+            for _ in range(3500):
+                if len(results) >= n or circuit.error is not None:
+                    break
+                await asyncio.sleep(0.01)
+            info['output_idle'] = out.output
+            info['error'] = repr(circuit.error) if circuit.error is not None else None
+        finally:
+            try:
+                await circuit.shutdown()
+            except BaseException as err:
+                info.setdefault('error', repr(err))
+            if not task.done():
+                task.cancel()
+
+    loop = asyncio.new_event_loop()
+    try:
+        loop.run_until_complete(main())
+    finally:
+        loop.close()
+    if info.get('error'):
+        res.fail('C12.simulation_error', info['error'])
+        return res
+    got = sorted((r['etype'], r['data'].get('put', {}).get('value'), tuple(r['data'].get('value') or ()))
+                 for r in results)
+    want = sorted(('ok', i, ('together', i)) for i in range(n))
+    if got != want:
+        alone = [g for g in got if g[2][:1] == ('alone',)]
+        res.fail('C12.start_mode_not_at_once',
+                 f"burst of {n} puts in 'start' mode with a blocking function in InExecutor: "
+                 f"{len(alone)} run(s) never saw all the others active; "
+                 f"{len(got)} results, first differing: {next((g for g in got if g not in want), None)!r}")
+    # no run ends before all n are at the barrier, so the number of active runs must have reached n
+    peak = max([r['data']['value'] for r in outputs], default=0)
+    if got == want and peak != n:
+        res.fail('C12.output', f"the output peaked at {peak} while {n} runs were active at the same time")
+    if info['output_idle'] != 0:
+        res.fail('C12.output', f"output {info['output_idle']} when idle")
+    res.nontrivial = n > 32
+    res.classes = ['InExecutor burst', 'burst larger than a default thread pool' if n > 32 else 'small burst']
+    res.outcome = {'results': len(got)}
+    return res
 
 
 def exhaustive(tier):
@@ -96,6 +185,8 @@ def exhaustive(tier):
 
 
 def execute(case):
+    if case.get('k') == 'executor':
+        return exec_executor(case)
     res = Result()
     log = []        # (t, kind, ...)
     info = {}
